@@ -156,7 +156,7 @@ func TZDigest() []string {
 			}
 		}
 	}
-	return out
+	return append(out, c04TZSpace()...)
 }
 
 // ---- external engines (schedule explorer, race pass)
@@ -243,7 +243,7 @@ func init() {
 
 	core.Register(&core.Check{
 		ID: "C04",
-		Rule: "schedules: preemption-bounded depth-first exploration (bound 2 quick / 3 thorough, iterated 0,1,2,...) of every interleaving of 2-3 threads at the scheduling points the instrumenter inserts at every function entry, loop iteration and package-level variable access of the current tree (controlled cooperative scheduler, executions run to completion, prefix replay checked), for 13 scenarios (shared compiled expression x shared resource for every node kind, custom functions incl. nested calls, Compile with AddFunction/WithExperimentalFuncs in parallel, a shared patch expression on two resources, 3 threads); per execution: each thread's observation equals its isolated observation, no write to a package-level variable, inputs unchanged. Compile histories: every sequence of length <=3 (quick) / <=4 (thorough) over an 11-call alphabet (plain, AddFunction fresh/again/built-in name/experimental name, WithExperimentalFuncs, Permissive, patch.Compile, Transform): the observable Compile state (probe programs + reflective table snapshot) never leaves the initial state and each call's outcome equals its outcome in the empty history. Evaluate histories: every sequence of length <=2 (quick) / <=3 (thorough) over 48 (expression, resource, options) evaluations on shared compiled expressions: each result equals the isolated result and earlier results are unchanged afterwards. Clock: now()/today()/timeOfDay() programs x 12 override instants denote exactly the override; the whole date/time battery gives identical results under TZ in {UTC, Asia/Kolkata, America/St_Johns, Pacific/Chatham}. A free-running -race pass of the scenario bodies (a sample of OS schedules, labelled as such) can only add violations; non-trivial = distinct (history | schedule, observation vector)",
+		Rule: "schedules: preemption-bounded depth-first exploration (bound 2 quick / 3 thorough, iterated 0,1,2,...) of every interleaving of 2-3 threads at the scheduling points the instrumenter inserts at every function entry, loop iteration and package-level variable access of the current tree (controlled cooperative scheduler, executions run to completion, prefix replay checked), for 13 scenarios (shared compiled expression x shared resource for every node kind, custom functions incl. nested calls, Compile with AddFunction/WithExperimentalFuncs in parallel, a shared patch expression on two resources, 3 threads); per execution: each thread's observation equals its isolated observation, no write to a package-level variable, inputs unchanged. Compile histories: every sequence of length <=3 (quick) / <=4 (thorough) over an 11-call alphabet (plain, AddFunction fresh/again/built-in name/experimental name, WithExperimentalFuncs, Permissive, patch.Compile, Transform): the observable Compile state (probe programs + reflective table snapshot) never leaves the initial state and each call's outcome equals its outcome in the empty history. Evaluate histories: every sequence of length <=2 (quick) / <=3 (thorough) over 48 (expression, resource, options) evaluations on shared compiled expressions: each result equals the isolated result and earlier results are unchanged afterwards. Process histories: every rotation of a 170-odd element alphabet, one fresh process each, so that every ordered pair of calls occurs with the first before the second; each outcome must equal the outcome of that call as the first call of a fresh process (catches process-wide memo tables and caches keyed too coarsely). Clock: now()/today()/timeOfDay() programs x 12 override instants denote exactly the override; the whole date/time battery gives identical results under TZ in {UTC, Asia/Kolkata, America/St_Johns, Pacific/Chatham}. A free-running -race pass of the scenario bodies (a sample of OS schedules, labelled as such) can only add violations; non-trivial = distinct (history | schedule, observation vector)",
 		Assumptions: []string{"scheduling points are function entries, loop iterations and package-variable accesses; finer-grained unsynchronised accesses are only seen by the free-running -race pass", "more than 3 threads and more than 3 preemptions are not explored"},
 		Subs: func(tier string) []core.Sub {
 			histLen, evLen := 3, 2
@@ -327,6 +327,25 @@ func init() {
 						r.Sample(core.W{"history": hist})
 					}
 				}},
+				{Name: "process-histories", N: len(C04RotAlphabet()), Note: fmt.Sprintf("every rotation of the %d-element alphabet (146 per-type type-test batteries, white-space variants, repeated regex calls, same text on other inputs), each in one fresh process; oracle = outcome of the element as first call of a fresh process", len(C04RotAlphabet())), Run: func(i int, r *core.Rec) {
+					al := C04RotAlphabet()
+					rot := c04RotSpawn(i, len(al))
+					r.Beat()
+					for k := 0; k < len(al); k++ {
+						idx := (i + k) % len(al)
+						r.Eval()
+						got, want := rot[idx], c04RotIsolated(idx)
+						r.Beat()
+						r.State("process-history|" + al[idx].group)
+						r.Nontrivial(fmt.Sprint(i), fmt.Sprint(idx), c04Hash(got))
+						if got != want {
+							r.Fail("process-history|outcome-depends-on-earlier-calls|"+al[idx].group, core.W{"process_started_with": al[i].name, "position_in_process": k, "call": al[idx].name, "outcome": core.Short(got, 400), "as_first_call_of_a_process": core.Short(want, 400)})
+						}
+					}
+					if r.WantSample() {
+						r.Sample(core.W{"rotation_start": al[i].name, "calls": len(al)})
+					}
+				}},
 				{Name: "clock", N: len(c04Instants), Note: "now()/today()/timeOfDay() programs x 12 override instants, and without override", Run: func(i int, r *core.Rec) {
 					t := c04Instants[i]
 					ms := t.Truncate(time.Millisecond)
@@ -392,7 +411,7 @@ func init() {
 						}
 					}
 				}},
-				{Name: "time-zone", N: 1, Note: "the date/time battery in sub-processes with TZ in {UTC, Asia/Kolkata, America/St_Johns, Pacific/Chatham}", Run: func(i int, r *core.Rec) {
+				{Name: "time-zone", N: 1, Note: "the date/time battery and the enumerated literal space (all ordered pairs of 139 Date/DateTime literals x 7 comparison operators; each literal x 8 amounts x {+,-}; conversions; FHIR elements; clock) in sub-processes with TZ in {UTC, Asia/Kolkata, America/St_Johns, Pacific/Chatham}", Run: func(i int, r *core.Rec) {
 					self, _ := os.Executable()
 					var ref []string
 					refZone := ""
@@ -412,10 +431,18 @@ func init() {
 							ref, refZone = lines, tz
 							continue
 						}
+						if len(lines) != len(ref) {
+							panic(fmt.Sprintf("harness: tzdigest under TZ=%s has %d lines, under %s %d", tz, len(lines), refZone, len(ref)))
+						}
+						r.AddEvals(int64(len(lines)))
 						for k := range lines {
-							if k >= len(ref) || lines[k] != ref[k] {
-								r.Fail("time-zone|result-depends-on-process-TZ", core.W{"TZ": tz, "got": lines[k], "under_" + refZone: ref[min(k, len(ref)-1)]})
-								break
+							class := "battery"
+							if t := strings.IndexByte(lines[k], '\t'); t >= 0 {
+								class = lines[k][:t]
+							}
+							r.State("tz-class|" + class)
+							if lines[k] != ref[k] {
+								r.Fail("time-zone|"+class+"|result-depends-on-process-TZ", core.W{"TZ": tz, "got": lines[k], "under_" + refZone: ref[k]})
 							}
 						}
 					}
